@@ -14,14 +14,85 @@ ID = 'C08'
 TRANSLATORS = [t1_operators.translate, t4_arith.translate]
 PROPERTY_FILE = 'Properties/C08.v'
 THEOREMS = [
-    'C08_every_generator_only_extends',
+    'C08_every_generator_only_extends', 'C08_extension_meaning', 'C08_result_length_formulas',
+    'C08_mul_default_partial', 'C08_mul_alter_exact', 'C08_mul_dadda_exact', 'C08_mul_wallace_partial',
+    'C08_mul_pow2_m1_exact', 'C08_mul_karatsuba_exact', 'C08_mul_karatsuba_pow2_exact', 'C08_last_step_exact',
+    'C08_square_exact', 'C08_square_pow2_m1_exact',
+    'C08_generate_mul', 'C08_generate_square',
+    'C08_modes_return_with_the_stated_length_upto8', 'C08_karatsuba_recursion_returns',
+    'C08_squares_return_upto12', 'C08_struct_meaning',
 ]
-PARTIAL = {}
-LEVEL_TEXT = 'work in progress'
-LEVEL_NOTE = 'work in progress'
-TECHNIQUE = 'work in progress'
-TRUSTED = []
-ASSUMPTIONS = []
+PARTIAL = {
+    'C08_mul_default_partial':
+        'add_mul (default mode): the product is proved for ALL widths (the levels returned by the weighted sum '
+        'are proved to be 0, 1, 2, ... without a gap, so the returned labels spell the product); the clause '
+        '"n + m result bits (n + m - 1 when one width is 1)" is NOT proved for all widths - it needs a count of '
+        'the carries the XAIG scheduler passes from level to level; it is established by kernel computation for '
+        'every width pair <= 8 (C08_modes_return_with_the_stated_length_upto8) and by the direct oracle on '
+        'every run',
+    'C08_mul_wallace_partial':
+        'add_mul_wallace: the product is proved for ALL widths and length <= n + m; that the final shifted adder '
+        'returns at least n + m bits (so that the length is exactly n + m) is computed for every width pair <= 8 '
+        'only. The model returns Err where the code would compact rows 0 / 1 of the reduced matrix by skipping '
+        'placeholders BETWEEN gates (a malformed result); that this never happens is computed up to 8 x 8 and '
+        'checked by the correspondence run (model Ok wherever the implementation returns), not proved for all widths',
+    'C08_modes_return_with_the_stated_length_upto8':
+        'the all-width theorems are conditional on the model run returning Ok; that the fuel of the modelled while '
+        'loops suffices and that Python-level IndexError / AssertionError paths are not taken on well-formed calls '
+        'is computed for every width pair <= 8 (all seven functions), for the Karatsuba recursion at 18 / 20 '
+        '(C08_karatsuba_recursion_returns) and for the squarers up to 12 bits (C08_squares_return_upto12), not '
+        'proved for all widths; the correspondence check shows Ok wherever the implementation returned (incl. '
+        'widths 35-41, 47-54)',
+}
+LEVEL_TEXT = ('every multiplication mode (add_mul, add_mul_alter, add_mul_dadda, add_mul_wallace, add_mul_pow2_m1, '
+              'add_mul_karatsuba_with_efficient_sum = MulMode.KARATSUBA, plus add_mul_karatsuba and the private '
+              'last_step_sum_with_new_powers_sum) and both squaring modes (add_square incl. its split at n >= 48, '
+              'add_square_pow2_m1) are proved to return bits that decode to a * b (a^2) for ALL operand widths, both '
+              'endiannesses, every host circuit, every choice of operand gates (repeated labels allowed) and every '
+              'operand value, by invariants over Sem.Eval of the final circuit: weighted-bag invariance modulo '
+              '2^(n+m) for the column compressors, peeling of the partial-product matrix by anti-diagonals for the '
+              'pow2_m1 family, strong induction on the width (through the fuel) with the exact thresholds of the '
+              'code for Karatsuba and for the squarer; the number of result bits (n+m, n+m-1 with a one-bit '
+              'operand; 2n / 1) is proved for all widths for alter, dadda, pow2_m1, both Karatsuba variants and both '
+              'squarers, and by kernel computation up to 8 x 8 for the default mode and Wallace (<= n+m proved); '
+              '"only fresh gates, old gates keep their function" is the generic extension theorem of the builder '
+              'layer; generate_mul / generate_square are proved for every MulMode / SquareMode; the model is tied to '
+              '/repo by regenerating the cells (translator T4) and by netlist-equality correspondence on every run '
+              '(vm_compute for widths <= 8-12 on bare and host circuits; the same Gallina code extracted to OCaml for '
+              'the 10^3-10^4-gate netlists at the Karatsuba / squarer thresholds)')
+LEVEL_NOTE = ('Coq kernel + vm_compute; translators T1, T4; correspondence harness (order-preserving label renaming '
+              'new_%032x -> new_%04x); for the wide shapes the model is EXTRACTED to OCaml (Extraction Language OCaml '
+              'with ExtrOcamlBasic + ExtrOcamlString only, ocamlfind ocamlopt 4.13; a 60-line driver built inside the '
+              'check prints the model result - returned labels, every gate with type and operands, every users list, '
+              'inputs, outputs, counter - and the harness compares it line by line with the implementation state: '
+              'exact netlist equality, no hashing); theorems are conditional on the model run returning Ok; the model '
+              'calls the C07 / C09 models of the summation / subtraction generators, which are of the repaired code '
+              '(fixes/D5, D6, D7; none of the repaired branches is reachable from a multiplier); value clauses of the '
+              'add_sum_pow2_m1-based functions ask that the empty string is not a gate label (filter(None, .) would '
+              'drop it) and the Wallace clause asks that the placeholder string "_PLACEHOLDER_STR_" is not a gate '
+              'label; where add_mul_wallace would compact non-contiguous rows the model returns Err')
+TECHNIQUE = ('Coq proof: generators as programs of the deep-embedded builder monad over the Circuit model; partial '
+             'products as a matrix with value sum_i 2^i row_i = a * b; default mode through the C07 weighted-sum '
+             'theorem plus a new gap-freeness invariant of its sorted work lists; column compressors as weighted-bag '
+             'rewriting (sum_i 2^i ones(column_i) invariant modulo 2^(n+m), a * b < 2^(n+m) closes the gap); '
+             'anti-diagonal peeling for add_mul_pow2_m1 / add_square_pow2_m1 with a pending-columns invariant; '
+             'Karatsuba and add_square by induction on the fuel with the algebraic identities and the subtractor\'s '
+             'modular result; bounded structural facts by vm_compute; netlist-equality correspondence under '
+             'vm_compute and through OCaml extraction; direct oracle = bit-parallel evaluation of the '
+             'implementation\'s netlist (exhaustive for n + m <= 12, 2000 random operand pairs beyond) cross-checked '
+             'with Circuit.evaluate_full_circuit / Circuit.evaluate')
+TRUSTED = ['uuid4 is modelled as a counter with a naming function that is universally quantified in every theorem; '
+           'freshness of each new label is established by the modelled has_gate retry loop, not assumed',
+           'string comparison of labels in the SortedLists of the weighted sum is String.compare (code-point order on '
+           'ASCII labels); the harness only uses ASCII labels',
+           'OCaml extraction (ExtrOcamlBasic, ExtrOcamlString), ocamlfind ocamlopt 4.13.1 and the driver in '
+           'harness/mulcorr.py, for the wide netlists only',
+           'the bit-parallel reference interpreter of the direct oracle (harness/mulcorr.py eval_parallel), '
+           'cross-checked against Circuit.evaluate_full_circuit on sampled assignments in every case']
+ASSUMPTIONS = ['operand widths >= 1 (an empty operand list raises in most modes; add_mul_wallace does not terminate '
+               'for an empty second operand and is not run on it)',
+               'the spelling of the input labels built by the generate_* wrappers is supplied by the harness',
+               'MulMode / SquareMode are passed as enum members']
 
 
 def _oracle_worker(blob):
